@@ -66,6 +66,7 @@ type Eng struct {
 	tb      *TB
 	solver  *Solver
 	cfg     Config
+	bypass  string // intrinsic name to skip on the next call (callReal)
 	globals map[*ssa.Global]*Value
 	pkgInit map[*ssa.Package]int // 0 not started, 1 running, 2 done
 	undo    []undoRec
@@ -80,9 +81,9 @@ type Eng struct {
 	stats EngStats
 	steps int
 
-	runtimeErrT types.Type
-	intr        map[string]intrinsic
-	depth       int
+	runtimeErrT  types.Type
+	intr         map[string]intrinsic
+	depth        int
 	curHS        *HarnessRun
 	curFn        *ssa.Function
 	pathFindings []*Finding
@@ -312,13 +313,24 @@ func (e *Eng) call(caller *frame, pos token.Pos, fn Value, args []Value) Value {
 
 const maxDepth = 400
 
+// callReal runs the SSA body of the function an intrinsic stands for (the intrinsic handles only
+// some cases exactly and leaves the rest to the real code).
+func (e *Eng) callReal(fr *frame, name string, args []Value) Value {
+	e.bypass = name
+	return e.callSSA(fr.caller, fr.callPos, fr.fn, args, nil)
+}
+
 func (e *Eng) callSSA(caller *frame, pos token.Pos, fn *ssa.Function, args []Value, env []Value) Value {
 	fr := &frame{e: e, caller: caller, fn: fn, callPos: pos}
 	if fn.Parent() == nil {
 		name := fn.String()
 		if in, ok := e.intr[name]; ok {
-			e.stats.Intrinsics[name]++
-			return in(fr, args)
+			if e.bypass == name {
+				e.bypass = "" // an intrinsic deferring to the real code (callReal)
+			} else {
+				e.stats.Intrinsics[name]++
+				return in(fr, args)
+			}
 		}
 		// package initialisers are routed through initPkg
 		if fn.Name() == "init" && fn.Synthetic != "" && fn.Pkg != nil && fn.Signature.Recv() == nil && caller != nil {
